@@ -632,6 +632,51 @@ func (r *c14Run) whichOperand(resultObs string, idx []int, used []bool) int {
 	return -1
 }
 
+// a returned list as positions of the operands idx (matching the element terms); rest = what did not match
+func (r *c14Run) operandList(o string, idx []int) (outIdx []int, rest string) {
+	if !strings.HasPrefix(o, "(OV (VList [") {
+		return nil, o
+	}
+	rest = strings.TrimSuffix(strings.TrimPrefix(o, "(OV (VList ["), "]))")
+	used := make([]bool, len(idx))
+	for len(rest) > 0 {
+		matched := false
+		for n, i := range idx {
+			if !used[n] && strings.HasPrefix(rest, r.term[i]) && (len(rest) == len(r.term[i]) || rest[len(r.term[i])] == ';') {
+				used[n], matched = true, true
+				outIdx = append(outIdx, n)
+				rest = strings.TrimPrefix(rest[len(r.term[i]):], ";")
+				break
+			}
+		}
+		if !matched {
+			break
+		}
+	}
+	return outIdx, rest
+}
+
+// observations as written to the case file: a returned operand as (OP k), a list of operands as (OL [..])
+func (r *c14Run) compact(obs []string, idx []int) string {
+	out := make([]string, len(obs))
+	for n, o := range obs {
+		out[n] = o
+		if !strings.HasPrefix(o, "(OV ") {
+			continue
+		}
+		if k := r.whichOperand(o, idx, make([]bool, len(idx))); k >= 0 {
+			out[n] = fmt.Sprintf("(OP %d)", k)
+		} else if ks, rest := r.operandList(o, idx); rest == "" && len(ks) > 0 {
+			parts := make([]string, len(ks))
+			for i, k := range ks {
+				parts[i] = fmt.Sprint(k)
+			}
+			out[n] = "(OL " + CoqList(parts) + ")"
+		}
+	}
+	return CoqList(out)
+}
+
 // order law on the implementation's own < answers: lt(x,y) is the observed answer for operands x,y of idx
 func (r *c14Run) orderLaw(id int, human map[string]any, oord string, idx []int, lt func(x, y int) string) {
 	anyErr, nan := false, false
@@ -657,25 +702,7 @@ func (r *c14Run) orderLaw(id int, human map[string]any, oord string, idx []int, 
 		r.violation(id, "order", "defined", "order fails although < is defined on all elements", human, "a sorted permutation", oord, vs...)
 		return
 	}
-	// the result is a list of the operands: parse by matching the element terms
-	inner := strings.TrimSuffix(strings.TrimPrefix(oord, "(OV (VList ["), "]))")
-	rest := inner
-	used := make([]bool, len(idx))
-	var outIdx []int
-	for len(rest) > 0 {
-		matched := false
-		for n, i := range idx {
-			if !used[n] && strings.HasPrefix(rest, r.term[i]) && (len(rest) == len(r.term[i]) || rest[len(r.term[i])] == ';') {
-				used[n], matched = true, true
-				outIdx = append(outIdx, n)
-				rest = strings.TrimPrefix(rest[len(r.term[i]):], ";")
-				break
-			}
-		}
-		if !matched {
-			break
-		}
-	}
+	outIdx, rest := r.operandList(oord, idx)
 	if len(outIdx) != len(idx) || len(rest) > 0 {
 		r.violation(id, "order", "permutation", "order's result is not a permutation of the list", human, "a permutation", oord, vs...)
 		return
@@ -737,7 +764,7 @@ func (r *c14Run) pairCase(i, j int, lt, eq [][]string) {
 	sum.Evaluations += 2 * len(oab)
 	desc := fmt.Sprintf("= != < > <= >= min max switch order: a,b -> %v ; b,a -> %v", oab, oba)
 	human := r.record(id, "pair", "pair/"+c14Kinds(a, b)+"/spec", []int{i, j}, desc)
-	r.cw.Add(fmt.Sprintf("CPair %d %d %d %s %s", id, i, j, CoqList(oab), CoqList(oba)))
+	r.cw.Add(fmt.Sprintf("CPair %d %d %d %s %s", id, i, j, r.compact(oab, []int{i, j}), r.compact(oba, []int{j, i})))
 	sum.Count("pair_kinds", c14Kinds(a, b))
 	sum.Count("pair_depth", fmt.Sprintf("%d,%d", a.Depth(), b.Depth()))
 	sum.Count("eq_outcome", oab[0])
@@ -856,7 +883,7 @@ func (r *c14Run) tripleCase(i, j, k int, lt, eq [][]string) int {
 	r.sum.Evaluations += len(o)
 	human := r.record(id, "triple", "triple/"+c14Kinds(a, b, c)+"/spec", []int{i, j, k},
 		fmt.Sprintf("min max l.min l.max order switch a<b b<c a<c a=b b=c a=c -> %v", o))
-	r.cw.Add(fmt.Sprintf("CTriple %d %d %d %d %s", id, i, j, k, CoqList(o)))
+	r.cw.Add(fmt.Sprintf("CTriple %d %d %d %d %s", id, i, j, k, r.compact(o, []int{i, j, k})))
 	r.sum.Count("triple_kinds", c14Kinds(a, b, c))
 	if o[6] == c14OT && o[7] == c14OT {
 		r.sum.Count("triple_chain", "a<b<c")
